@@ -253,7 +253,74 @@ class Elit:
         good = {g for g in good if g in elit_params or g in assigns}
         rets = [n for n in own if isinstance(n, ast.Return)]
         if not rets: return False
-        return all(r.value is not None and self.expr(r.value, good, fns, depth) for r in rets)
+        if all(r.value is not None and self.expr(r.value, good, fns, depth) for r in rets): return True
+        return self.body_flow(fn, elit_params, fns, depth)
+
+    def body_flow(self, fn: ast.FunctionDef, elit_params: set, fns: dict, depth) -> bool:
+        """the same question, flow-sensitively: a name may be bound first to an elit value and LATER to another candidate (`agent = strategy(x); if ..: return agent;
+        agent = fresh; return greedy(x, agent)`): what matters is the binding that reaches each `return`.  Forward walk over the statements; `good` = names whose
+        current binding is elit on every path reaching this point; an `if` joins by intersection; a loop first kills every name its body binds."""
+        bad_ret = []
+
+        def bound_in(stmts):
+            out = set()
+            for st in stmts:
+                for n in ast.walk(st):
+                    if isinstance(n, ast.Assign):
+                        for t in n.targets: out.update(names_in_target(t))
+                    elif isinstance(n, (ast.AugAssign, ast.AnnAssign)): out.update(names_in_target(n.target))
+                    elif isinstance(n, (ast.For, ast.comprehension)): out.update(names_in_target(n.target))
+                    elif isinstance(n, ast.NamedExpr): out.add(n.target.id)
+                    elif isinstance(n, ast.With):
+                        for it in n.items:
+                            if it.optional_vars is not None: out.update(names_in_target(it.optional_vars))
+            return out
+
+        def walk(stmts, good, fns_):
+            """returns the good set after the statements, or None when every path through them has returned / raised"""
+            good = set(good); fns_ = dict(fns_)
+            for st in stmts:
+                if isinstance(st, ast.FunctionDef):
+                    fns_[st.name] = st; good.discard(st.name); continue
+                if isinstance(st, ast.Return):
+                    if st.value is None or not self.expr(st.value, good, fns_, depth): bad_ret.append(st)
+                    return None
+                if isinstance(st, ast.Raise): return None
+                if isinstance(st, ast.Assign):
+                    if len(st.targets) == 1 and isinstance(st.targets[0], ast.Name):
+                        nm = st.targets[0].id
+                        (good.add if self.expr(st.value, good, fns_, depth) else good.discard)(nm)
+                    else:
+                        for t in st.targets: good -= set(names_in_target(t))
+                    continue
+                if isinstance(st, (ast.AugAssign, ast.AnnAssign)):
+                    if isinstance(st, ast.AnnAssign) and isinstance(st.target, ast.Name) and st.value is not None and self.expr(st.value, good, fns_, depth): good.add(st.target.id)
+                    else: good -= set(names_in_target(st.target))
+                    continue
+                if isinstance(st, ast.If):
+                    g1 = walk(st.body, good, fns_); g2 = walk(st.orelse, good, fns_)
+                    if g1 is None and g2 is None: return None
+                    good = g2 if g1 is None else g1 if g2 is None else (g1 & g2)
+                    continue
+                if isinstance(st, (ast.For, ast.While)):
+                    good -= bound_in([st])
+                    g1 = walk(st.body, good, fns_)               # returns inside the loop are judged with the reduced set
+                    walk(st.orelse, good if g1 is None else (good & g1), fns_)
+                    good = good if g1 is None else (good & g1)
+                    continue
+                if isinstance(st, (ast.With, ast.Try)):
+                    good -= bound_in([st])
+                    inner = list(st.body) + [h_ for h in getattr(st, "handlers", []) for h_ in h.body] + list(getattr(st, "orelse", [])) + list(getattr(st, "finalbody", []))
+                    g1 = walk(inner, good, fns_)
+                    good = good if g1 is None else (good & g1)
+                    continue
+                good -= bound_in([st])                           # expression statements, deletes, ... : anything they bind is unknown
+            return good
+
+        rets = [n for n in iter_own(fn) if isinstance(n, ast.Return)]
+        if not rets: return False
+        walk(list(fn.body), set(elit_params), fns)
+        return not bad_ret
 
 
 def iter_own(fn):
